@@ -86,3 +86,93 @@ Proof.
   all: try (intros a Ha; rewrite Oc by exact Ha; now upd_simpl).
   all: try lia.
 Qed.
+
+(* ---------- ServeHTTP: every branch ---------- *)
+
+Definition lk_rid (l : lk) : N := match lk_route l with Some ri => ri_id ri | None => 0%N end.
+Definition allow_of (f : sflags) : bytes := match f_allow f with Some a => a | None => [] end.
+
+Definition shape_of (b : branch) (l : lk) (f : sflags) : shape :=
+  match b with
+  | BDirect => ShDirect (lk_rid l) (lk_params l)
+  | BIgnoreTsr => ShIgnoreTsr (lk_rid l) (lk_tsr_params l)
+  | BRedirect => ShRedirect
+  | BOptions => ShOptions (allow_of f)
+  | BNoMethod => ShNoMethod (allow_of f)
+  | BNoRoute => ShNoRoute
+  end.
+
+Definition serve_env (H : heap) (c w r : addr) : reqenv :=
+  mkEnv (reqs H r) (fresh_writer (hdrs H w)) (c_fox (ctxs H c)).
+
+Lemma slice_read_put_ctx H c v s : slice_read (put_ctx H c v) s = slice_read H s.
+Proof. reflexivity. Qed.
+
+Ltac obs_simpl :=
+  unfold observe, ctx_params, writer_view, set_route_tsr, lookup_lazy_effect; simpl; upd_simpl; simpl.
+
+Lemma serve_view_correct H c w r l f H' b :
+  pool_ok H c -> lk_wf l ->
+  serve H c w r l f = Ok (H', b) ->
+  observe H' c = Ok (expected (serve_env H c w r) (shape_of b l f)) /\ pool_ok H' c.
+Proof.
+  intros Hp Hwf. unfold serve.
+  destruct (reset_lookup_spec H c w r l Hp) as (H2 & sp & st & E & Ec & Rp & Rt & Hne & L1 & L2 & Oc & Er & Eh & Eq & En).
+  remember (do H1 <- reset H c w r; lookup_effect H1 c l) as RL eqn:ERL.
+  unfold bind in ERL |- *. destruct (reset H c w r) as [H1|]; [|discriminate].
+  rewrite <- ERL, E. clear ERL.
+  assert (Hrec : recs H2 (c_rec (ctxs H c)) = rec_reset w) by (rewrite Er; now upd_simpl).
+  (* the shared tail: no route / no method / options *)
+  assert (Tail : forall Hx bx,
+    (do x <- trunc_params (ctxs H2 c);
+     let H := put_ctx H2 c x in
+     let H := set_route_tsr H c None false in
+     let noroute (H : heap) := Ok (put_ctx H c (cset_scope (ctxs H c) NoRouteHandler), BNoRoute) in
+     if f_options f && f_handle_opts f then
+       let H := lookup_lazy_effect H c (f_skip2 f) in
+       match f_allow f with
+       | Some a =>
+           let H := put_hdr H w (hset HeaderAllow a (hdrs H w)) in
+           Ok (put_ctx H c (cset_scope (ctxs H c) OptionsHandler), BOptions)
+       | None => noroute H
+       end
+     else if f_handle_405 f then
+       let H := lookup_lazy_effect H c (f_skip2 f) in
+       match f_allow f with
+       | Some a =>
+           let H := put_hdr H w (hset HeaderAllow a (hdrs H w)) in
+           Ok (put_ctx H c (cset_scope (ctxs H c) NoMethodHandler), BNoMethod)
+       | None => noroute H
+       end
+     else noroute H) = Ok (Hx, bx) ->
+    observe Hx c = Ok (expected (serve_env H c w r) (shape_of bx l f)) /\ pool_ok Hx c).
+  { intros Hx bx. rewrite Ec. unfold trunc_params, entered_ctx; simpl.
+    destruct (f_options f && f_handle_opts f); [|destruct (f_handle_405 f)];
+      try destruct (f_allow f) as [al|] eqn:EA; intro EQ; injection EQ as <- <-;
+      (split; [ obs_simpl; rewrite ?Hrec; simpl; unfold slice_read, allow_of; simpl; rewrite ?Eh, ?Eq, ?EA; upd_simpl; reflexivity
+              | exists (mkSlice (s_arr sp) 0), st; obs_simpl; repeat split; auto ]). }
+  destruct (lk_route l) as [ri|] eqn:Eroute; destruct (lk_tsr l) eqn:Etsr.
+  - (* route found by trailing slash *)
+    destruct (negb (f_connect f) && negb (f_root f) && true) eqn:Eg.
+    + destruct (ri_ignore_ts ri) eqn:Eig.
+      * intro EQ; injection EQ as <- <-. destruct (Hwf Etsr) as (tp & Etp).
+        split.
+        -- obs_simpl. rewrite Ec; simpl. upd_simpl. rewrite Hrec; simpl.
+           rewrite slice_read_put_ctx, (Rt tp Etp). unfold shape_of, lk_tsr_params, lk_rid. rewrite Etp, Eroute, Eh, Eq. reflexivity.
+        -- exists sp, st. obs_simpl. rewrite Ec; simpl. repeat split; auto.
+      * destruct (ri_redirect_ts ri && f_clean f) eqn:Erd.
+        -- rewrite Ec. unfold trunc_params, entered_ctx; simpl.
+           intro EQ; injection EQ as <- <-. split.
+           ++ obs_simpl. rewrite Hrec; simpl. unfold slice_read; simpl. rewrite Eh, Eq. reflexivity.
+           ++ exists (mkSlice (s_arr sp) 0), st. obs_simpl. repeat split; auto.
+        -- apply Tail.
+    + apply Tail.
+  - (* direct match *)
+    intro EQ; injection EQ as <- <-. split.
+    + obs_simpl. rewrite Ec; simpl. upd_simpl. rewrite Hrec; simpl. rewrite slice_read_put_ctx, Rp.
+      unfold shape_of, lk_rid. rewrite Eroute, Eh, Eq. reflexivity.
+    + exists sp, st. obs_simpl. rewrite Ec; simpl. repeat split; auto.
+  - destruct (negb (f_connect f) && negb (f_root f) && true); [discriminate | apply Tail].
+  - replace (negb (f_connect f) && negb (f_root f) && false) with false by (now rewrite andb_false_r).
+    apply Tail.
+Qed.
